@@ -22,18 +22,22 @@ import (
 	"os/exec"
 	"path/filepath"
 	"regexp"
+	"runtime"
 	"sort"
 	"strconv"
 	"strings"
 	"sync"
 	"sync/atomic"
+	"syscall"
 	"testing"
 	"time"
 
 	"github.com/fabiolb/fabio/config"
 	"github.com/fabiolb/fabio/internal/verifx"
 	"github.com/fabiolb/fabio/logger"
+	"github.com/fabiolb/fabio/metrics"
 	"github.com/fabiolb/fabio/route"
+	"github.com/fabiolb/fabio/trace"
 	"github.com/fabiolb/fabio/transport"
 )
 
@@ -56,10 +60,12 @@ type c19Beh struct {
 		Status int `json:"status"`
 		Within int `json:"within"`
 	} `json:"out"`
-	Wrap string `json:"wrap,omitempty"` // handlers in front of the transport: "", "plain", "gzip", "log", "gzip+log"
-	Req  string `json:"req,omitempty"`  // "", "GET", "HEAD", "POST", "EXPECT"
-	Conn string `json:"conn,omitempty"` // "reused": an earlier request left the connection to the upstream in the idle pool
-	Body int    `json:"body,omitempty"` // the response body takes this many ms to arrive after the header
+	Wrap  string `json:"wrap,omitempty"`  // handlers in front of the transport: "", "plain", "gzip", "log", "gzip+log"
+	Req   string `json:"req,omitempty"`   // "", "GET", "HEAD", "POST", "EXPECT"
+	Conn  string `json:"conn,omitempty"`  // "reused": an earlier request left the connection to the upstream in the idle pool
+	Body  int    `json:"body,omitempty"`  // the response body takes this many ms to arrive after the header
+	Pre   string `json:"pre,omitempty"`   // "103": the upstream sends an informational response first
+	Final int    `json:"final,omitempty"` // the upstream's final status (0: 200)
 }
 
 func c19Config(c c19Cfg) *config.Config {
@@ -94,6 +100,23 @@ func c19NewProxy(cfg *config.Config, routes string, wrap string) (*HTTPProxy, er
 			return tbl.Lookup(r, r.Header.Get("trace"), pick, match, globCache, false)
 		},
 	}
+	if strings.Contains(wrap, "trace") { // tracing.TracingEnabled, wired as main does
+		tc := c19Tracing()
+		p.TracerCfg = *tc
+	}
+	if strings.Contains(wrap, "metrics") { // metrics.target set: the stats handler of main.startServers
+		stats, err := metrics.Initialize(&config.Metrics{Target: "label", Prefix: "verif"})
+		if err != nil {
+			return nil, err
+		}
+		p.Stats = HttpStatsHandler{
+			Requests:        stats.NewHistogram("requests"),
+			Noroute:         stats.NewCounter("notfound"),
+			WSConn:          stats.NewGauge("ws.conn"),
+			StatusTimer:     stats.NewHistogram("http.status", "code"),
+			RedirectCounter: stats.NewCounter("http.redirect.count", "code"),
+		}
+	}
 	if strings.Contains(wrap, "log") {
 		l, err := logger.New(io.Discard, logger.CommonFormat)
 		if err != nil {
@@ -102,6 +125,80 @@ func c19NewProxy(cfg *config.Config, routes string, wrap string) (*HTTPProxy, er
 		p.Logger = l
 	}
 	return p, nil
+}
+
+var (
+	c19TraceOnce sync.Once
+	c19TraceCfg  *config.Tracing
+)
+
+// c19Tracing switches tracing on the way main does (trace.InitializeTracer sets the global
+// tracer once per process); the spans go to a collector that discards them.
+func c19Tracing() *config.Tracing {
+	c19TraceOnce.Do(func() {
+		sink := httptest.NewServer(http.HandlerFunc(func(w http.ResponseWriter, r *http.Request) {
+			io.Copy(io.Discard, r.Body)
+			w.WriteHeader(http.StatusAccepted)
+		}))
+		c19TraceCfg = &config.Tracing{TracingEnabled: true, CollectorType: "http", ConnectString: sink.URL + "/api/v1/spans",
+			ServiceName: "Fabiolb", Topic: "Fabiolb-Kafka-Topic", SamplerRate: 1, SpanHost: "localhost:9998", TraceID128Bit: true}
+		trace.InitializeTracer(c19TraceCfg)
+	})
+	return c19TraceCfg
+}
+
+// c19Saturated returns the address of a listening socket whose accept queue is full, so that
+// further connection attempts hang in SYN retransmission ("" if that cannot be arranged here).
+func c19Saturated() (addr string, release func()) {
+	if runtime.GOOS != "linux" {
+		return "", func() {}
+	}
+	fd, err := syscall.Socket(syscall.AF_INET, syscall.SOCK_STREAM, 0)
+	if err != nil {
+		return "", func() {}
+	}
+	closeFd := func() { syscall.Close(fd) }
+	if err := syscall.Bind(fd, &syscall.SockaddrInet4{Addr: [4]byte{127, 0, 0, 1}}); err != nil {
+		closeFd()
+		return "", func() {}
+	}
+	if err := syscall.Listen(fd, 0); err != nil {
+		closeFd()
+		return "", func() {}
+	}
+	sa, err := syscall.Getsockname(fd)
+	if err != nil {
+		closeFd()
+		return "", func() {}
+	}
+	addr = fmt.Sprintf("127.0.0.1:%d", sa.(*syscall.SockaddrInet4).Port)
+	var keep []net.Conn
+	release = func() {
+		for _, c := range keep {
+			c.Close()
+		}
+		closeFd()
+	}
+	timeouts := 0
+	for i := 0; i < 16 && timeouts < 2; i++ {
+		c, err := net.DialTimeout("tcp", addr, 250*time.Millisecond)
+		if err == nil {
+			keep = append(keep, c)
+			timeouts = 0
+			continue
+		}
+		if ne, ok := err.(net.Error); ok && ne.Timeout() {
+			timeouts++
+			continue
+		}
+		release()
+		return "", func() {}
+	}
+	if timeouts < 2 {
+		release()
+		return "", func() {}
+	}
+	return addr, release
 }
 
 const c19Slack = 1500 * time.Millisecond
@@ -139,6 +236,12 @@ func c19BehaviourPart(t *testing.T) map[string]any {
 	// "100 Continue" goes out either), then answer; give up early when the proxy has gone away
 	slow := http.HandlerFunc(func(w http.ResponseWriter, r *http.Request) {
 		d, _ := strconv.Atoi(r.URL.Query().Get("d"))
+		if r.URL.Query().Get("pre") == "103" { // an informational response at once, the rest later
+			w.Header().Set("Link", "</style.css>; rel=preload")
+			w.WriteHeader(http.StatusEarlyHints)
+			w.Header().Del("Link")
+		}
+		final, _ := strconv.Atoi(r.URL.Query().Get("st"))
 		if d > 0 {
 			tm := time.NewTimer(time.Duration(d) * time.Millisecond)
 			defer tm.Stop()
@@ -152,6 +255,11 @@ func c19BehaviourPart(t *testing.T) map[string]any {
 		w.Header().Set("X-Upstream", "c19")
 		w.Header().Set("Content-Type", "text/plain")
 		b, _ := strconv.Atoi(r.URL.Query().Get("b"))
+		if final > 0 && final != 200 {
+			w.WriteHeader(final)
+			io.WriteString(w, "final status of the upstream")
+			return
+		}
 		if b <= 0 {
 			w.WriteHeader(200)
 			io.WriteString(w, strings.Repeat("ok ", 200))
@@ -182,6 +290,10 @@ func c19BehaviourPart(t *testing.T) map[string]any {
 	secure := httptest.NewTLSServer(slow)
 	defer secure.Close()
 
+	sat, release := c19Saturated() // an upstream that never answers the SYN
+	defer release()
+	dialSkipped := 0
+
 	type built struct {
 		c   c19Beh
 		srv *httptest.Server
@@ -189,13 +301,21 @@ func c19BehaviourPart(t *testing.T) map[string]any {
 	var bs []built
 	for _, c := range cases {
 		var routes string
+		pu, su := plain.URL, secure.URL
+		if c.Class == "unreachable" {
+			if sat == "" {
+				dialSkipped++
+				continue
+			}
+			pu, su = "http://"+sat, "https://"+sat
+		}
 		switch c.Kind {
 		case "default":
-			routes = "route add svc / " + plain.URL + "/"
+			routes = "route add svc / " + pu + "/"
 		case "insecure":
-			routes = "route add svc / " + secure.URL + `/ opts "tlsskipverify=true"`
+			routes = "route add svc / " + su + `/ opts "tlsskipverify=true"`
 		case "hostoverride":
-			routes = "route add svc / " + secure.URL + `/ opts "host=x.test tlsskipverify=true"`
+			routes = "route add svc / " + su + `/ opts "host=x.test tlsskipverify=true"`
 		default:
 			t.Fatalf("unknown kind %q", c.Kind)
 		}
@@ -229,7 +349,7 @@ func c19BehaviourPart(t *testing.T) map[string]any {
 	measure := func(b built) seen {
 		c := b.c
 		T := time.Duration(c.C.Rht) * time.Millisecond
-		cl := &http.Client{Timeout: T + c19Slack + time.Duration(c.Delay+c.Body)*time.Millisecond + 3*time.Second, Transport: &http.Transport{DisableKeepAlives: true}}
+		cl := &http.Client{Timeout: T + c19Slack + time.Duration(c.Delay+c.Body+2*c.Out.Within)*time.Millisecond + 3*time.Second, Transport: &http.Transport{DisableKeepAlives: true}}
 		method, body := "GET", io.Reader(nil)
 		switch c.Req {
 		case "HEAD":
@@ -250,7 +370,7 @@ func c19BehaviourPart(t *testing.T) map[string]any {
 				return seen{err: fmt.Errorf("earlier request: status %d, body %v", resp.StatusCode, cerr)}
 			}
 		}
-		req, err := http.NewRequest(method, b.srv.URL+"/?d="+strconv.Itoa(c.Delay)+"&b="+strconv.Itoa(c.Body), body)
+		req, err := http.NewRequest(method, b.srv.URL+"/?d="+strconv.Itoa(c.Delay)+"&b="+strconv.Itoa(c.Body)+"&pre="+c.Pre+"&st="+strconv.Itoa(c.Final), body)
 		if err != nil {
 			return seen{err: err}
 		}
@@ -284,7 +404,26 @@ func c19BehaviourPart(t *testing.T) map[string]any {
 		T := time.Duration(c.C.Rht) * time.Millisecond
 		bound := time.Duration(c.Out.Within)*time.Millisecond + slack
 		what := fmt.Sprintf("%s request", c19ReqName(c))
+		if c.Class == "unreachable" {
+			dt := time.Duration(c.C.Dial) * time.Millisecond
+			switch {
+			case m.err != nil:
+				return verdict{"dial-not-cut-off", fmt.Sprintf("%s to an upstream that never answers the SYN: no response within %v (proxy.dialtimeout %v): %v", what, m.el, dt, m.err)}
+			case m.status != 504 && m.status != 502:
+				return verdict{"dial-status", fmt.Sprintf("%s to an upstream that never answers the SYN: status %d after %v, want a gateway error", what, m.status, m.el)}
+			case m.el > bound:
+				return verdict{"dial-late", fmt.Sprintf("%s to an upstream that never answers the SYN: %d after %v, want within %v (proxy.dialtimeout %v + %v slack): the client was held beyond the configured dial timeout", what, m.status, m.el, bound, dt, slack)}
+			}
+			return verdict{}
+		}
 		switch {
+		case c.Out.Status != 504 && c.Out.Status != 200 && m.err == nil && m.status != c.Out.Status:
+			return verdict{"final-status-lost", fmt.Sprintf("%s: the upstream sends %s and then %d after %d ms (response-header timeout %v); the client got %d", what, c19PreName(c), c.Out.Status, c.Delay, T, m.status)}
+		case c.Out.Status != 504 && c.Out.Status != 200:
+			if m.err != nil {
+				return verdict{"client-error", fmt.Sprintf("%s failed after %v: %v", what, m.el, m.err)}
+			}
+			return verdict{}
 		case m.err != nil && c.Out.Status == 504:
 			return verdict{"not-cut-off", fmt.Sprintf("%s: no response within %v (response-header timeout %v, upstream delay %d ms): %v", what, m.el, T, c.Delay, m.err)}
 		case m.err != nil:
@@ -385,13 +524,16 @@ func c19BehaviourPart(t *testing.T) map[string]any {
 			if c.Conn != "" {
 				f["conn"], f["req"] = c.Conn, c.Req
 			}
+			if c.Pre != "" {
+				f["pre"] = c.Pre
+			}
 			if c.Body > 0 {
 				f["body"] = "long"
 				if c.Body <= 100 {
 					f["body"] = "short"
 				}
 			}
-			verifx.Fail(c, f, "%s transport, SetConfig(%s) after %s, handlers %q%s, upstream delay %d ms: %s", c.Kind, c.C.Name, c.First.Name, c.Wrap, map[bool]string{true: ", over a connection an earlier request left idle", false: ""}[c.Conn == "reused"], c.Delay, last[i].msg)
+			verifx.Fail(c, f, "%s transport, SetConfig(%s) after %s, handlers %q%s%s, upstream delay %d ms: %s", c.Kind, c.C.Name, c.First.Name, c.Wrap, map[bool]string{true: ", over a connection an earlier request left idle", false: ""}[c.Conn == "reused"], map[bool]string{true: ", upstream sends " + c.Pre + " first", false: ""}[c.Pre != ""], c.Delay, last[i].msg)
 		}
 		if i%37 == 3 && len(samples) < 3 {
 			bj, _ := json.Marshal(c)
@@ -405,7 +547,14 @@ func c19BehaviourPart(t *testing.T) map[string]any {
 		}
 	}
 	return map[string]any{"cases": len(cases), "ran": ran, "retried": retried, "unstable": unstable, "distinct_nontrivial": nontrivial, "samples": samples,
-		"waves_tight": tight, "waves_wide": wide, "waves_void": voided}
+		"waves_tight": tight, "waves_wide": wide, "waves_void": voided, "dial_skipped": dialSkipped}
+}
+
+func c19PreName(c c19Beh) string {
+	if c.Pre == "" {
+		return "no informational response"
+	}
+	return c.Pre + " first"
 }
 
 func c19Method(c c19Beh) string {
